@@ -153,6 +153,20 @@ where
         let apex_name = q.qname().to_name();
         let source = req.client_addr().ip();
 
+        // The response repeats the request (RFC 1996 section 4.7). Build it
+        // first: a request whose sections cannot be read is a format error
+        // and must not reach the notify target.
+        let Ok(mut additional) = Self::copy_message(msg) else {
+            warn!(
+                "Ignoring NOTIFY from {} for zone '{}': malformed message",
+                req.client_addr(),
+                q.qname()
+            );
+            return ControlFlow::Break(once(ready(Ok(CallResult::new(
+                mk_error_response(msg, OptRcode::FORMERR),
+            )))));
+        };
+
         // https://datatracker.ietf.org/doc/html/rfc1996#section-3
         //   "3.7. A NOTIFY request has QDCOUNT>0, ANCOUNT>=0, AUCOUNT>=0,
         //    ADCOUNT>=0.  If ANCOUNT>0, then the answer section represents an
@@ -271,8 +285,6 @@ where
                 //    except that the QR bit is also set.  The query ID of the
                 //    response must be the same as was received in the
                 //    request."
-                let mut additional = Self::copy_message(msg).unwrap();
-
                 let response_hdr = additional.header_mut();
                 response_hdr.set_opcode(Opcode::NOTIFY);
                 response_hdr.set_rcode(Rcode::NOERROR);
